@@ -1,3 +1,4 @@
+\* C41 quick (the check generates the same text: checks/C41.py cfg_text)
 SPECIFICATION Spec
 CONSTANTS
   MaxT = 4
